@@ -24,6 +24,7 @@ func init() {
 	vRegister("VerifHarness_C05_MapShards", VerifHarness_C05_MapShards)
 	vRegister("VerifHarness_C05_RemoteErrorSurfaces", VerifHarness_C05_RemoteErrorSurfaces)
 	vRegister("VerifHarness_C05_RetryCoversEveryShard", VerifHarness_C05_RetryCoversEveryShard)
+	vRegister("VerifHarness_C05_RetryCostCountsEveryShardOnce", VerifHarness_C05_RetryCostCountsEveryShardOnce)
 }
 
 // vRandIntn replaces math/rand.Intn in the engine: any value in [0,n).
@@ -362,4 +363,75 @@ func VerifHarness_C05_RetryCoversEveryShard() {
 		vAssert(err == nil, "C05.shard-with-a-live-owner-is-served")
 	}
 	vAssert(fate.calls <= 12, "C05.retry-terminates")
+}
+
+// --- the same fail-over for the cost estimate (remoteShardGroup.IteratorCost): on success the
+// returned costs account for every shard of the group exactly once, whatever rounds failed before
+
+func vC05ExecIteratorCost(e *MetaExecutor, nodeID uint64, shardIDs []uint64, m *influxql.Measurement, opt query.IteratorOptions) (query.IteratorCost, error) {
+	vC05Fate.calls++
+	if vC05Fate.down[nodeID] {
+		return query.IteratorCost{}, errors.New("dial: connection refused")
+	}
+	return query.IteratorCost{NumShards: int64(len(shardIDs)), NumSeries: int64(len(shardIDs))}, nil
+}
+
+func VerifHarness_C05_RetryCostCountsEveryShardOnce() {
+	fate := &vC05NodeFate{}
+	vC05Fate = fate
+	for n := 1; n <= 3; n++ {
+		fate.down[n] = vBool("nodeDown")
+	}
+	nSh := vLen("shards", 1, 3)
+	var shards shardInfos
+	first := uint64(vLen("firstNode", 1, 3))
+	for i := 0; i < nSh; i++ {
+		si := meta.ShardInfo{ID: uint64(i + 1)}
+		var os []uint64
+		switch vChoice("ownerSet", 4) {
+		case 0:
+			os = []uint64{first}
+		case 1:
+			os = []uint64{first, first%3 + 1}
+		case 2:
+			os = []uint64{first, (first+1)%3 + 1}
+		default:
+			os = []uint64{1, 2, 3}
+		}
+		for _, o := range os {
+			si.Owners = append(si.Owners, meta.ShardOwner{NodeID: o})
+		}
+		shards = append(shards, si)
+	}
+	rg := newRemoteShardGroup(&MetaExecutor{}, first, shards, true)
+	costs, err := rg.IteratorCost(&influxql.Measurement{Name: "m"}, query.IteratorOptions{})
+	servable := true
+	for _, si := range shards {
+		ok := false
+		for _, o := range si.Owners {
+			if !fate.down[o.NodeID] {
+				ok = true
+			}
+		}
+		if !ok {
+			servable = false
+		}
+	}
+	if err == nil {
+		var total int64
+		for _, c := range costs {
+			total += c.NumShards
+		}
+		vAssert(total == int64(nSh), "C05.cost-counts-every-shard-exactly-once")
+		vReach("C05.cost.success")
+	} else {
+		vAssert(len(costs) == 0, "C05.no-costs-with-error")
+	}
+	if !servable {
+		vAssert(err != nil, "C05.unservable-shard-fails-the-query")
+	} else {
+		vAssert(err == nil, "C05.shard-with-a-live-owner-is-served")
+	}
+	vAssert(fate.calls <= 12, "C05.retry-terminates")
+	vReach("C05.cost.end")
 }
